@@ -9,8 +9,8 @@ CHECKS = {
          "oracle completeness argument of DESIGN 2.4 (guarded by the N+2 self-check in the thorough tier); bounded term size / names"),
  "C02": ("reference model: ground congruence closure (sound for any pool) vs eq / dropped slots / symmetries / totals after every union of generated histories",
          "every equality, redundancy and symmetry the ground closure derives must be reported right after the union returns",
-         "the ground closure only derives consequences of the asserted equations; bounded term size / names"),
- "C03": ("semantic model oracle: every e-node of every class evaluated in random environments of F_5 (summation and let binders) against the class's Bellman-Ford-cheapest e-node, root against direct evaluation; rule pool self-validated at the model level",
+         "the ground closure only derives consequences of the asserted equations; bounded term size / names; plus two exhaustive families (symmetry transfer, symmetry through a moved e-node)"),
+ "C03": ("semantic model oracle: every e-node of every class evaluated in random environments of F_5 (summation binder over the index set {0,1}, let binder) against the class's Bellman-Ford-cheapest e-node, root against direct evaluation; rule pool self-validated at the model level",
          "generated start terms x rule subsets x iterations x substitution method",
          "rule pool valid in the model (self-check); wrong e-node missed with probability 5^-8 per class"),
  "C04": ("constructed expectation: planted instance L.sigma.rho inside a context (optionally only present up to equality through balanced pre-unions) must yield R.sigma.rho represented and equal after one apply_rewrites",
@@ -107,7 +107,9 @@ def main():
         },
         "engines": [
             {"name": "sev", "path": "/verif/harness", "serves_properties": sorted(CHECKS.keys()),
-             "kind_free_text": "Rust harness: proptest strategies (generation + shrinking) and exhaustive enumerators drive explicit oracles; every case runs in a fresh thread; shrunk failures become JSON replay files"},
+             "kind_free_text": "Rust harness: proptest strategies (generation + shrinking) and exhaustive enumerators drive explicit oracles; every case runs in a fresh thread (in a child process after a crash); shrunk failures become JSON replay files"},
+            {"name": "sev-fuzz", "path": "/verif/harness/fuzz", "serves_properties": ["C08", "C16", "C18", "C19"],
+             "kind_free_text": "cargo-fuzz / libFuzzer targets (thorough tier) that decode bytes into the same case types and call the same oracle functions"},
         ],
         "checks": checks,
         "not_applicable": na,
